@@ -36,14 +36,16 @@ class EngineModel:
         self.engine = repo.module('engine')
         self.YP = repo.cls('engine', 'YP')
 
-    def view(self, f):
-        """helper-inlined view of f (sa/inline.py): same-module helpers and helper methods of the same class pasted in"""
+    def view(self, f, keep=()):
+        """helper-inlined view of f (sa/inline.py): same-module helpers and helper methods of the same class pasted in,
+        except the functions in ``keep`` (calls of those stay calls)"""
         if not hasattr(self, '_views'):
             self._views = {}
-        if f not in self._views:
+        key = (f, tuple(sorted(g.qname for g in keep)))
+        if key not in self._views:
             from .inline import inline_view
-            self._views[f] = inline_view(self.repo, f)
-        return self._views[f]
+            self._views[key] = inline_view(self.repo, f, keep=keep)
+        return self._views[key]
 
     # -- CFGs -------------------------------------------------------------------------------
     def cfg(self, f, **kw):
